@@ -25,9 +25,11 @@ struct PropSpec {
 }
 
 const PROPS: &[PropSpec] = &[
-    PropSpec { id: "C28", profile: "bt", level: "exploration", quick_runs: 2500, thorough_runs: 6000 },
-    PropSpec { id: "C29", profile: "bt", level: "exploration", quick_runs: 2500, thorough_runs: 6000 },
-    PropSpec { id: "C34", profile: "fl", level: "exploration", quick_runs: 1500, thorough_runs: 12000 },
+    // run counts: quick is sized for about a minute of batch time on 16 cores (C29 runs keep
+    // going after a result mismatch and are the slowest), thorough for 10-15 minutes
+    PropSpec { id: "C28", profile: "bt", level: "exploration", quick_runs: 2000, thorough_runs: 6000 },
+    PropSpec { id: "C29", profile: "bt", level: "exploration", quick_runs: 1500, thorough_runs: 5000 },
+    PropSpec { id: "C34", profile: "fl", level: "exploration", quick_runs: 3000, thorough_runs: 12000 },
 ];
 
 fn arg_value(args: &[String], flag: &str) -> Option<String> {
